@@ -22,7 +22,7 @@ HunkC(c) == IF c = "minus3" THEN "minus" ELSE IF c = "plus3" THEN "plus" ELSE c
 SecTemplateLen(kd) ==
   CASE kd = "mod" -> 3 [] kd = "add" -> 4 [] kd = "addempty" -> 2 [] kd = "del" -> 4 [] kd = "rename" -> 3
     [] kd = "renmod" -> 6 [] kd = "copy" -> 3 [] kd = "modeonly" -> 2 [] kd = "modemod" -> 5 [] kd = "bin" -> 2 [] kd = "modebin" -> 4 [] kd = "renmode" -> 5
-    [] kd = "binadd" -> 3 [] kd = "binx" -> 2 [] kd = "renbin" -> 5 [] kd = "cc" -> 3 [] kd = "subshort" -> 6 [] OTHER -> 0
+    [] kd = "binadd" -> 3 [] kd = "binx" -> 2 [] kd = "renbin" -> 5 [] kd = "cc" -> 3 [] kd = "subshort" -> 6 [] kd \in {"subdel", "subadd"} -> 6 [] OTHER -> 0
 SecHasHunks(kd) == kd \in {"mod", "add", "del", "renmod", "modemod", "cc"}
 
 \* What the one file header of a section must say: <<old, new, label, mode, binary>>
@@ -32,8 +32,8 @@ WantHeader(l) ==
   CASE kd \in {"mod", "bare", "cc", "subshort"} -> <<f, f, "modified", 0, FALSE>>
     [] kd = "sublog"               -> <<f, f, "submodule", 0, FALSE>>
     [] kd = "onlyin"               -> <<f, f, "onlyin", 0, FALSE>>      \* diff -r: file on one side only
-    [] kd \in {"add", "addempty"}  -> <<0, f, "added", 0, FALSE>>
-    [] kd = "del"                  -> <<f, 0, "removed", 0, FALSE>>
+    [] kd \in {"add", "addempty", "subadd"}  -> <<0, f, "added", 0, FALSE>>
+    [] kd \in {"del", "subdel"}    -> <<f, 0, "removed", 0, FALSE>>
     [] kd \in {"rename", "renmod"} -> <<f, g, "renamed", 0, FALSE>>
     [] kd = "renmode"              -> <<f, g, "renamed", 2, FALSE>>
     \* (a renamed binary file with changes: that it is binary is said by the header or by the "Binary files" line
@@ -131,7 +131,9 @@ RowsOf(h, k) ==
     [] HunkC(c) \in BodyC -> << Row(HunkC(c), k, <<>>) >>
     [] c = "nonl"   -> << Row("raw", k, <<>>) >>
     [] c = "subc" -> << Row("raw", k, <<>>) >>
-    [] c = "subp" -> IF k > 1 /\ h[k - 1].c = "subm" THEN << Row("subshort", k, <<>>) >> ELSE << >>
+    [] c = "subp" -> IF k > 1 /\ h[k - 1].c = "subm" THEN << Row("subshort", k, <<>>) >> ELSE << Row("plus", k, <<>>) >>
+    \* a "-Subproject commit" line that stands alone (a removed submodule; or the input ends here) is shown on its own
+    [] c = "subm" -> IF k < Len(h) /\ h[k + 1].c = "subp" THEN << >> ELSE << Row("subgone", k, <<>>) >>
     \* (a diffstat line is free text unless relative paths are requested: then its path is rewritten, see Trace_Stream)
     [] c \in {"other", "blank", "stat"} -> \* inside a header block the statement neither demands nor forbids the row
                                    << Row(IF InHeader(h, k - 1) THEN "rawopt" ELSE "raw", k, <<>>) >>
